@@ -169,6 +169,15 @@ def serve(prog, env, extra_status=None, rewrite=False, oneshot=False, cookie=Non
     mk = concretise(prog, ctr)
     app = Ombott()
     hooks = []
+    if serve.warm % 3 == 0:
+        # the application has already served (a request for a path it does not know) before its hooks, error handlers and
+        # routes are registered: what is registered later counts all the same
+        warm_env = {}
+        setup_testing_defaults(warm_env)
+        warm_env.update(PATH_INFO='/before-anything-is-registered', REQUEST_METHOD='GET')
+        warm_env['wsgi.errors'] = io.StringIO()
+        b''.join(app(warm_env, lambda *a, **k: (lambda d: None)))
+    serve.warm += 1
     for i in range(1, env['nb'] + 1):
         def b(i=i):
             hooks.append(['b', i])
@@ -282,6 +291,9 @@ def serve(prog, env, extra_status=None, rewrite=False, oneshot=False, cookie=Non
     obs['closes'] = sorted([k, v] for k, v in ctr.c.items())
     obs['hooks'] = hooks
     return obs
+
+
+serve.warm = 0
 
 
 def reuse_records(rng, n, chk):
